@@ -237,4 +237,254 @@ theorem castFromI_spec {w n₁ : Nat} {x : List Nat} (n : Nat) (hw : 1 ≤ w) (h
     · rw [U_take n hx, S_eq hx, wrapU_toInt_dvd (M_pos w n) (M_dvd_M (by omega)), M_eq_pow]
 end UI
 
+/-- `j`-th base-`2^w` digit of a natural number -/
+def dig (w v j : Nat) : Nat := v / B w ^ j % B w
+
+theorem dig_lt (w v j : Nat) : dig w v j < B w := Nat.mod_lt _ (B_pos w)
+
+/-- the first `k` digits of `v` denote `v mod B^k` -/
+theorem U_map_dig (w v : Nat) : ∀ k, U w ((List.range k).map (dig w v)) = v % B w ^ k := by
+  intro k
+  induction k with
+  | zero => simp [Nat.mod_one]
+  | succ k ih =>
+    rw [List.range_succ, List.map_append, U_append, ih]
+    simp only [List.length_map, List.length_range, List.map_cons, List.map_nil, U_cons, U_nil,
+      Nat.mul_zero, Nat.add_zero]
+    rw [Nat.mod_pow_succ]; rfl
+
+theorem WF_map_dig (w v k : Nat) : WF w k ((List.range k).map (dig w v)) := by
+  refine ⟨by simp, ?_⟩
+  intro d hd
+  obtain ⟨j, _, rfl⟩ := List.mem_map.mp hd
+  exact dig_lt w v j
+
+/-- digit extraction from a digit list -/
+theorem dig_U {w n : Nat} {x : List Nat} (hx : WF w n x) {j : Nat} (hj : j < n) :
+    dig w (U w x) j = x.getD j 0 := by
+  have h1 := U_take_add_drop w x j
+  have h2 := U_lt (WF_take j hx)
+  rw [M_eq_pow, Nat.min_eq_left (by omega)] at h2
+  rw [hx.1, Nat.min_eq_left (by omega)] at h1
+  have h3 : U w x / B w ^ j = U w (x.drop j) := by
+    rw [h1, Nat.add_mul_div_left _ _ (Nat.pow_pos (B_pos w)), Nat.div_eq_of_lt h2, Nat.zero_add]
+  unfold dig
+  rw [h3, List.drop_eq_getElem_cons (by rw [hx.1]; exact hj), U_cons, Nat.add_mul_mod_self_left]
+  have : x[j]'(by rw [hx.1]; exact hj) < B w := hx.2 _ (List.getElem_mem _)
+  rw [Nat.mod_eq_of_lt this]
+  simp [List.getD, List.getElem?_eq_getElem (show j < x.length by rw [hx.1]; exact hj)]
+
+theorem B_mul (k w : Nat) : B (k * w) = B w ^ k := by
+  unfold B; rw [Nat.mul_comm, Nat.pow_mul]
+
+/-- a narrow digit of a number is a slice of its wide digit: `w₁ = c * w₂`, `i = c*q + r` -/
+theorem dig_split {c w₂ : Nat} (v : Nat) {q r : Nat} (hr : r < c) :
+    dig w₂ v (c * q + r) = dig (c * w₂) v q / B w₂ ^ r % B w₂ := by
+  unfold dig
+  rw [B_mul, Nat.pow_add, Nat.pow_mul, ← Nat.div_div_eq_div_mul]
+  generalize v / (B w₂ ^ c) ^ q = y
+  rw [← Nat.mod_mul_right_div_self, ← Nat.mod_mul_right_div_self (y % _)]
+  congr 1
+  rw [Nat.mod_mod_of_dvd]
+  rw [← Nat.pow_succ]
+  exact Nat.pow_dvd_pow _ (by omega)
+
+theorem shrRaw_unsigned (k a s : Nat) : PInt.shrRaw k false a s = a / 2 ^ s := by
+  simp [PInt.shrRaw]
+theorem cast_trunc {k₁ k₂ : Nat} (s : Bool) (p : Nat) (h : k₂ ≤ k₁) : PInt.cast k₁ s k₂ p = p % B k₂ := by
+  simp [PInt.cast, h]
+theorem cast_zext {k₁ k₂ : Nat} (p : Nat) (h : k₁ < k₂) : PInt.cast k₁ false k₂ p = p := by
+  simp [PInt.cast]; omega
+
+namespace UI
+/-- the split loop writes the first `stop` narrow digits of the source value -/
+theorem splitLoop_eq {c w₂ m : Nat} {src : List Nat} (hc : 1 ≤ c) (hw₂ : 1 ≤ w₂)
+    (hs : WF (c * w₂) m src) {stop : Nat} (out : List Nat) (h1 : stop ≤ out.length)
+    (h2 : stop ≤ m * c) :
+    splitLoop (c * w₂) w₂ src stop out
+      = .ok ((List.range stop).map (dig w₂ (U (c * w₂) src)) ++ out.drop stop) := by
+  unfold splitLoop forRange
+  have hdc : c * w₂ / w₂ = c := Nat.mul_div_cancel _ (by omega)
+  simp only [hdc, Nat.sub_zero]
+  have hb : (fun i out => (idx src (i / c)).bind fun widerDigit =>
+        (PInt.shr (c * w₂) false widerDigit (i % c * w₂)).bind fun sh =>
+          upd out i (PInt.cast (c * w₂) false w₂ sh))
+      = fun i o => ((idx src (i / c)).bind fun widerDigit =>
+        (PInt.shr (c * w₂) false widerDigit (i % c * w₂)).bind fun sh =>
+          .ok (PInt.cast (c * w₂) false w₂ sh)).bind fun d => upd o i d := by
+    funext i o; simp only [Outcome.bind_assoc, Outcome.bind_ok]
+  rw [hb]
+  refine forN_write stop out h1 ?_
+  intro j hj
+  have hq : j / c < m := (Nat.div_lt_iff_lt_mul (by omega)).2 (by omega)
+  have hr : j % c < c := Nat.mod_lt _ (by omega)
+  rw [idx_getD (by rw [hs.1]; exact hq)]
+  simp only [Outcome.bind_ok]
+  unfold PInt.shr
+  rw [if_pos (Nat.mul_lt_mul_of_pos_right hr (by omega))]
+  simp only [Outcome.bind_ok]
+  have hle : w₂ ≤ c * w₂ := Nat.le_mul_of_pos_left _ (by omega)
+  rw [shrRaw_unsigned, cast_trunc _ _ hle]
+  congr 1
+  conv_rhs => rw [← Nat.div_add_mod j c]
+  rw [dig_split _ hr, dig_U hs hq]
+  rw [Nat.mul_comm (j % c) w₂, Nat.pow_mul]; rfl
+end UI
+
+theorem cast_unsigned_id {k₁ k₂ p : Nat} (_h1 : p < B k₁) (h2 : p < B k₂) :
+    PInt.cast k₁ false k₂ p = p := by
+  unfold PInt.cast
+  split
+  · exact Nat.mod_eq_of_lt h2
+  · simp
+
+theorem or_shl_eq_add {cur d s : Nat} (h : cur < 2 ^ s) : cur ||| d * 2 ^ s = cur + d * 2 ^ s := by
+  rw [Nat.or_comm, Nat.mul_comm, ← Nat.two_pow_add_eq_or_of_lt h, Nat.add_comm]
+
+theorem B_eq (w : Nat) : B w = 2 ^ w := rfl
+
+theorem B_pow_le {w a b : Nat} (h : a ≤ b) : B w ^ a ≤ B w ^ b := Nat.pow_le_pow_right (B_pos w) h
+
+namespace UI
+/-- the body of `packLoop` -/
+def packBody (w₁ w₂ : Nat) (src : List Nat) (stop : Nat) (i : Nat) (st : Nat × List Nat) :
+    Outcome (Nat × List Nat) :=
+  let divideCount := w₂ / w₁
+  let miniShift := i % divideCount
+  (idx src i).bind fun d =>
+  (PInt.shl w₂ (PInt.cast w₁ false w₂ d) (miniShift * w₁)).bind fun sh =>
+    let cur := st.1 ||| sh
+    if miniShift == divideCount - 1 || i == stop - 1 then
+      (upd st.2 (i / divideCount) cur).bind fun out => .ok (0, out)
+    else .ok (cur, st.2)
+
+theorem packLoop_def (w₁ w₂ : Nat) (src : List Nat) (stop : Nat) (out : List Nat) :
+    packLoop w₁ w₂ src stop out = (forN (packBody w₁ w₂ src stop) stop 0 (0, out)).map (·.2) := rfl
+
+/-- state of the pack loop after `i` iterations, before any final partial flush -/
+def packSt (c w₁ T : Nat) (out : List Nat) (i : Nat) : Nat × List Nat :=
+  (T % B w₁ ^ i / B (c * w₁) ^ (i / c),
+   (List.range (i / c)).map (dig (c * w₁) T) ++ out.drop (i / c))
+
+theorem packSt_length {c w₁ T : Nat} {out : List Nat} {i : Nat} (h : i / c ≤ out.length) :
+    (packSt c w₁ T out i).2.length = out.length := by
+  simp [packSt]; omega
+
+theorem pow_split (w₁ c i : Nat) : B w₁ ^ i = B (c * w₁) ^ (i / c) * B w₁ ^ (i % c) := by
+  rw [B_mul, ← Nat.pow_mul, ← Nat.pow_add, Nat.div_add_mod]
+
+theorem packBody_step {c w₁ m : Nat} {src : List Nat} (hc : 1 ≤ c) (hw₁ : 1 ≤ w₁)
+    (hs : WF w₁ m src) {stop : Nat} (out : List Nat) {i : Nat} (hi : i < stop) (hm : stop ≤ m)
+    (hn : stop ≤ out.length * c) :
+    packBody w₁ (c * w₁) src stop i (packSt c w₁ (U w₁ src) out i) =
+      .ok (if (i % c == c - 1 || i == stop - 1) then
+            (0, (packSt c w₁ (U w₁ src) out i).2.set (i / c)
+                  (U w₁ src % B w₁ ^ (i + 1) / B (c * w₁) ^ (i / c)))
+          else (U w₁ src % B w₁ ^ (i + 1) / B (c * w₁) ^ (i / c),
+                (packSt c w₁ (U w₁ src) out i).2)) := by
+  have hdc : c * w₁ / w₁ = c := Nat.mul_div_cancel _ (by omega)
+  have hr : i % c < c := Nat.mod_lt _ (by omega)
+  have hq : i / c < out.length := (Nat.div_lt_iff_lt_mul (by omega)).2 (by omega)
+  unfold packBody
+  simp only [hdc]
+  rw [idx_getD (by rw [hs.1]; omega), ← dig_U hs (show i < m by omega)]
+  simp only [Outcome.bind_ok]
+  generalize hT : U w₁ src = T
+  have hd := dig_lt w₁ T i
+  have hb1 := B_pos w₁
+  have hle : B w₁ ^ (i % c + 1) ≤ B (c * w₁) := by rw [B_mul]; exact B_pow_le (by omega)
+  have hsh : dig w₁ T i * B w₁ ^ (i % c) < B w₁ ^ (i % c + 1) := by
+    rw [Nat.pow_succ, Nat.mul_comm]
+    exact Nat.mul_lt_mul_of_pos_left hd (Nat.pow_pos hb1)
+  have hd2 : dig w₁ T i < B (c * w₁) := by
+    have : B w₁ ^ 1 ≤ B (c * w₁) := by rw [B_mul]; exact B_pow_le hc
+    rw [Nat.pow_one] at this; omega
+  rw [cast_unsigned_id hd hd2]
+  unfold PInt.shl
+  rw [if_pos (Nat.mul_lt_mul_of_pos_right hr (by omega))]
+  simp only [Outcome.bind_ok]
+  have e2 : (2:Nat) ^ (i % c * w₁) = B w₁ ^ (i % c) := by rw [← B_mul]; rfl
+  rw [e2, Nat.mod_eq_of_lt (show dig w₁ T i * B w₁ ^ (i % c) < B (c * w₁) by omega)]
+  have hcur : (packSt c w₁ T out i).1 < B w₁ ^ (i % c) := by
+    simp only [packSt]
+    apply Nat.div_lt_of_lt_mul
+    rw [← pow_split]
+    exact Nat.mod_lt _ (Nat.pow_pos hb1)
+  have hnew : (packSt c w₁ T out i).1 + dig w₁ T i * B w₁ ^ (i % c)
+      = T % B w₁ ^ (i + 1) / B (c * w₁) ^ (i / c) := by
+    simp only [packSt]
+    rw [Nat.mod_pow_succ, pow_split w₁ c i, Nat.mul_assoc,
+      Nat.add_mul_div_left _ _ (Nat.pow_pos (B_pos _)), ← pow_split, Nat.mul_comm (dig w₁ T i)]
+    rfl
+  rw [← e2] at hcur ⊢
+  rw [or_shl_eq_add hcur, e2, hnew]
+  split
+  · rw [upd_eq _ (by rw [packSt_length (by omega)]; exact hq)]
+    rfl
+  · rfl
+
+theorem packLoop_state {c w₁ m : Nat} {src : List Nat} (hc : 1 ≤ c) (hw₁ : 1 ≤ w₁)
+    (hs : WF w₁ m src) {stop : Nat} (out : List Nat) (hm : stop ≤ m)
+    (hn : stop ≤ out.length * c) : ∀ i, i < stop →
+    forN (packBody w₁ (c * w₁) src stop) i 0 (0, out) = .ok (packSt c w₁ (U w₁ src) out i) := by
+  intro i
+  induction i with
+  | zero => intro _; simp [forN, packSt, Nat.mod_one]
+  | succ i ih =>
+    intro hi
+    rw [forN_succ_last, ih (by omega), Outcome.bind_ok, Nat.zero_add,
+      packBody_step hc hw₁ hs out (by omega) hm hn]
+    congr 1
+    have hne : (i == stop - 1) = false := by simp; omega
+    rw [hne, Bool.or_false]
+    have hr : i % c < c := Nat.mod_lt _ (by omega)
+    by_cases hlast : i % c = c - 1
+    · have hq : (i + 1) / c = i / c + 1 := by
+        have h1 := Nat.div_add_mod i c
+        have : i + 1 = c * (i / c + 1) := by rw [Nat.mul_add]; omega
+        rw [this, Nat.mul_div_cancel_left _ (by omega)]
+      have hq0 : i / c < out.length := (Nat.div_lt_iff_lt_mul (by omega)).2 (by omega)
+      have hpow : B w₁ ^ (i + 1) = B (c * w₁) ^ (i / c + 1) := by
+        have h1 := Nat.div_add_mod i c
+        rw [B_mul, ← Nat.pow_mul]; congr 1; rw [Nat.mul_add]; omega
+      simp only [hlast, beq_self_eq_true, if_true, packSt, hq, hpow]
+      congr 1
+      · rw [Nat.div_eq_of_lt (Nat.mod_lt _ (Nat.pow_pos (B_pos _)))]
+      · rw [List.set_append]
+        simp only [List.length_map, List.length_range, Nat.lt_irrefl, if_false, Nat.sub_self]
+        rw [List.range_succ, List.map_append, List.append_assoc,
+          List.drop_eq_getElem_cons (by omega : i / c < out.length)]
+        congr 1
+        simp only [List.set_cons_zero, List.map_cons, List.map_nil, List.singleton_append]
+        congr 1
+        rw [Nat.pow_succ, Nat.mod_mul_right_div_self]; rfl
+    · have hq : (i + 1) / c = i / c := by
+        have h1 := Nat.div_add_mod i c
+        apply Nat.div_eq_of_lt_le
+        · rw [Nat.mul_comm]; omega
+        · rw [Nat.add_mul, Nat.one_mul, Nat.mul_comm]; omega
+      have : (i % c == c - 1) = false := by simp [hlast]
+      simp only [this, Bool.false_eq_true, if_false, packSt, hq]
+
+/-- closed form of the pack loop (`stop ≥ 1`) -/
+theorem packLoop_eq {c w₁ m : Nat} {src : List Nat} (hc : 1 ≤ c) (hw₁ : 1 ≤ w₁)
+    (hs : WF w₁ m src) {stop : Nat} (out : List Nat) (h0 : 1 ≤ stop) (hm : stop ≤ m)
+    (hn : stop ≤ out.length * c) :
+    packLoop w₁ (c * w₁) src stop out =
+      .ok ((List.range ((stop - 1) / c)).map (dig (c * w₁) (U w₁ src))
+            ++ (U w₁ src % B w₁ ^ stop / B (c * w₁) ^ ((stop - 1) / c))
+                :: out.drop ((stop - 1) / c + 1)) := by
+  rw [packLoop_def]
+  obtain ⟨k, rfl⟩ : ∃ k, stop = k + 1 := ⟨stop - 1, by omega⟩
+  rw [forN_succ_last, packLoop_state hc hw₁ hs out hm hn k (by omega), Outcome.bind_ok,
+    Nat.zero_add, packBody_step hc hw₁ hs out (by omega) hm hn]
+  simp only [Nat.add_sub_cancel, beq_self_eq_true, Bool.or_true, if_true, Outcome.map_ok, packSt]
+  have hq0 : k / c < out.length := (Nat.div_lt_iff_lt_mul (by omega)).2 (by omega)
+  congr 1
+  rw [List.set_append]
+  simp only [List.length_map, List.length_range, Nat.lt_irrefl, if_false, Nat.sub_self]
+  rw [List.drop_eq_getElem_cons (by omega : k / c < out.length)]
+  rfl
+end UI
+
 end Bnum
